@@ -95,7 +95,7 @@ func c15Constructors() ([]Finding, int) {
 			if len(tk) > 0 {
 				got = tk[0].Period
 			}
-			if len(tk) > 1 || got != want {
+			if len(tk) > 1 || got != want || (len(tk) == 1) != (want > 0) {
 				fs = append(fs, Finding{Property: "C15", Signature: fmt.Sprintf("constructor %s: janitor ticker %v, want %v", cfg, got, want),
 					Detail: fmt.Sprintf("%s registered %d ticker(s) with period %v; a janitor must run iff the cleanup interval is > 0 (want period %v)", cfg, len(tk), got, want),
 					Replay: map[string]interface{}{"engine": "C15"}})
